@@ -545,7 +545,7 @@ pub fn main(ctx: &Ctx) {
     campaign(
         ctx,
         Campaign {
-            total_cases: ctx.pick(2_000, 30_000),
+            total_cases: ctx.pick(2_000, 24_000),
             max_shrink_iters: 200,
             limits: Limits { cpu_s: 20, wall_s: 120, as_bytes: 4 << 30 },
             meta: Meta {
